@@ -294,6 +294,25 @@ pub fn gen_case(rng: &mut Rng, profile: Profile, blob: bool, max_ops: u64) -> Ca
     let n = 10 + rng.below(max_ops.max(11) - 10);
     let mut ops = vec![];
     let nk = nkeys as u64;
+    if profile == Profile::Reloc && rng.chance(1, 3) {
+        // scripted prelude (a scenario CLASS the random walk reaches too rarely): every key written twice into two flushes (blob files
+        // shared by all keys when the blob file target is large), one table per key in the last level (each linking the same blob
+        // files), garbage created in those files by a single-key drop_range, then a PARTIAL leveled compaction (new L0 data for
+        // one key) while the tables left out of it still reference the stale blob files that become relocation candidates
+        for _ in 0..2 {
+            for k in 0..nkeys {
+                ops.push(Op::Insert(k, 40));
+            }
+            ops.push(Op::Flush(Wm::Zero));
+        }
+        ops.push(Op::Major(1, Wm::Zero));
+        let kd = rng.below(nk) as usize;
+        ops.push(Op::DropRange(Bd::I(kd), Bd::I(kd)));
+        let ki = (kd + 1 + rng.below(nk - 1) as usize) % nkeys;
+        ops.push(Op::Insert(ki, 40));
+        ops.push(Op::Flush(Wm::Zero));
+        ops.push(Op::Leveled(1, *rng.pick(&[64u64, 4096, 1 << 26]), Wm::Zero));
+    }
     // weak-delete discipline: the first two keys are "weak keys" (insert / remove_weak alternate), tracked at run time
     for _ in 0..n {
         let r = rng.below(1000);
